@@ -49,6 +49,7 @@ TRUSTED_EXTRA = ['harness/c18.py: ast visitor reading except clauses (fail-close
 
 PROP = 'C18'
 KF_CLEANUP, KF_EXIT, KF_BIGINT, KF_HANG = 'KF-C18-2', 'KF-C18-3', 'KF-C18-4', 'KF-C18-5'
+KF_NUL = 'KF-C18-8'
 
 # ---------------------------------------------------------------------------------------------
 # exception classes of the model  (Coq constructor -> how to get the real class)
@@ -147,7 +148,8 @@ class _Tries(ast.NodeVisitor):
                 clauses.append([_dotted(e) for e in h.type.elts])
             else:
                 clauses.append([_dotted(h.type)])
-        self.tries.append(clauses)
+        if clauses:  # try/finally without handlers catches nothing
+            self.tries.append(clauses)
         self.generic_visit(node)
 
     def visit_TryStar(self, node):
@@ -251,6 +253,11 @@ def make_exception(coq_name):
         return cls(ls, 'name', None, 'stub message')
     if base == 'ESingleInstrInvalidArg':
         return cls('stub message')
+    if base == 'EFileSourceError':
+        import pathlib
+        from exactly_lib.section_document.source_location import SourceLocation, SourceLocationPath, SourceLocationInfo
+        return cls(ls, 'stub message', 'setup',
+                   SourceLocationInfo(pathlib.Path('.'), SourceLocationPath(SourceLocation(ls, pathlib.Path('f')), [])))
     if base == 'EFileAccessError':
         import pathlib
         from exactly_lib.section_document.source_location import SourceLocation
@@ -404,8 +411,19 @@ class StubProgram:
                                    with_stub(real.before_assert_instruction_set, 'before-assert'),
                                    with_stub(real.assert_instruction_set, 'assert'),
                                    with_stub(real.cleanup_instruction_set, 'cleanup'))
-        self.extractor_spec = [None]
+        self.sds_raise = None
         real_splitter = instruction_name_and_argument_splitter.splitter
+        real_act_parser = ActPhaseParser()
+        from exactly_lib.section_document.section_element_parsing import SectionElementParser
+
+        class StubActPhaseParser(SectionElementParser):
+            """the act phase's element parser: `stubsection CLASS` raises, everything else is the real parser's"""
+
+            def parse(self, fs_location_info, source):
+                line = source.remaining_part_of_current_line
+                if line.startswith('stubsection '):
+                    raise make_exception(line.split()[1])
+                return real_act_parser.parse(fs_location_info, source)
 
         def splitter(line):
             if line.startswith('stubname '):
@@ -413,11 +431,13 @@ class StubProgram:
             return real_splitter(line)
 
         def mk():
+            if self.sds_raise is not None:
+                raise make_exception(self.sds_raise)
             return tempfile.mkdtemp(prefix='exactly-', dir=sandbox_root)
 
         self.mp = mp.MainProgram(
             TestCaseHandlingSetup(ActPhaseSetup('stub actor', StubActor()), IdentityPreprocessor()), mk,
-            TestCaseDefinitionForMainProgram(TestCaseParsingSetup(splitter, isetup, ActPhaseParser()), builtin_symbols.ALL),
+            TestCaseDefinitionForMainProgram(TestCaseParsingSetup(splitter, isetup, StubActPhaseParser()), builtin_symbols.ALL),
             test_suite.test_suite_definition(), io.DEFAULT_BUFFER_SIZE)
 
 
@@ -456,6 +476,8 @@ ROUTE_SITES = [
     ('SInstrStep', '[assert]', 'stub post {C}'), ('SInstrStep', '[assert]', 'stub main {C}'),
     ('SInstrStep', '[cleanup]', 'stub usages {C}'), ('SInstrStep', '[cleanup]', 'stub pre {C}'),
     ('SInstrStep', '[cleanup]', 'stub main {C}'),
+    ('SSectionParser', '[act]', 'stubsection {C}'),
+    ('SSdsSetup', '[setup]', 'stub none {C}'),
     ('SActParse', '[act]', 'stub parse {C}'),
     ('SActStep', '[act]', 'stub usages {C}'), ('SActStep', '[act]', 'stub pre {C}'), ('SActStep', '[act]', 'stub post {C}'),
     ('SActStep', '[act]', 'stub prepare {C}'), ('SActStep', '[act]', 'stub execute {C}'),
@@ -466,7 +488,7 @@ C_ACC = {'FILE_ACCESS_ERROR': 'FILE_ACCESS_ERROR', 'PRE_PROCESS_ERROR': 'PRE_PRO
 C_FAIL = {'SYNTAX_ERROR': 'FSyntax', 'VALIDATION_ERROR': 'FValidation', 'FAIL': 'FFail', 'HARD_ERROR': 'FHard',
           'INTERNAL_ERROR': 'FInternal'}
 # abstract classes cannot be raised
-NOT_RAISABLE = {'EParseError', 'EFileSourceError', 'EKeyboardInterrupt'}
+NOT_RAISABLE = {'EParseError', 'EKeyboardInterrupt'}
 
 
 def c_exc(spec):
@@ -478,7 +500,7 @@ def c_exc(spec):
     return '(Exc %s PNone)' % base
 
 
-def route_table(work):
+def route_table(work, quick=False):
     """[(site, mode, exception spec, observed)] by running the real program; observed = Coq term of type [res pres]"""
     root = tempfile.mkdtemp(prefix='c18-route-', dir=work)
     sbx = os.path.join(root, 'sbx')
@@ -500,12 +522,15 @@ def route_table(work):
                 if mode == 'TFail' and header == '[conf]' and site == 'SInstrParse':
                     continue
                 for spec in specs:
+                    if mode == 'TFail' and quick and not (spec.startswith('EPhaseStepFailure') or spec in ('EHardError', 'EKeyError')):
+                        continue
                     if site == 'SConfInstr' and mode == 'TFail':
                         text = '[conf]\nstatus = FAIL\n' + line.replace('{C}', spec) + '\n'
                     else:
                         text = conf + header + '\n' + line.replace('{C}', spec) + '\n'
                     with open(case_path, 'w') as f:
                         f.write(text)
+                    sp.sds_raise = spec if site == 'SSdsSetup' else None
                     pr = impl.run_main(sp.mp, [case_path], root, root)
                     code, ident, exc = classify_run(pr)
                     if exc is not None:
@@ -597,9 +622,8 @@ def subclass_table():
 
 def gen_tables(ctx):
     chains = read_chains()
-    rows = route_table(ctx.work)
-    if not ctx.quick:
-        pass
+    rows = route_table(ctx.work, ctx.quick)
+    ctx.c18_route_rows = len(rows)
     lines = ['(* GENERATED on every run by harness/c18.py from the source and the running code under /repo/src. Do not edit. *)',
              'From Coq Require Import ZArith NArith List Bool String.',
              'From Exactly Require Import Model.Outcome Model.Errors.', 'Import ListNotations.', 'Open Scope string_scope.', '']
@@ -705,9 +729,10 @@ def c_fobs(pr, timed_out, text):
 
 
 def source_shown(text, err):
-    """stderr shows at least one non-blank line of the case (compared without surrounding white space)"""
+    """stderr shows at least one non-blank line of the case (compared without surrounding white space), or - for an error
+    about a phase as a whole, e.g. an act phase without source - names the phase"""
     lines = {l.strip() for l in text.splitlines() if l.strip()}
-    return any(l.strip() in lines for l in err.splitlines() if l.strip())
+    return any(l.strip() in lines or _LOC.match(l) for l in err.splitlines() if l.strip())
 
 
 # ---------------------------------------------------------------------------------------------
@@ -1013,20 +1038,107 @@ def run_templates(ctx, res, runner):
     return len(terms)
 
 
+RULE = ('three streams. (1) integer expressions: random syntax trees (depth <= 4; literals in decimal/hex/octal/binary/underscore form, '
+        'float literals, undefined names; unary - + ~; binary + - * // % ** /; magnitudes bounded to 3000 bits) rendered to Python '
+        'text, through the real python_evaluate and (a sample) end to end through `exit-code == EXPR`; corpus of the repaired defects '
+        'first; non-trivial := >= 2 operators incl. one of // % ** /. (2) replacement templates: random sequences of plain '
+        'characters, backslash escapes (digits, letters, g, one to three digits), \\g<NAME> groups (names: defined, undefined, numeric, '
+        'ill-formed, non-ASCII; with and without closing >), trailing backslash, x 9 regexes with 0..11 groups and named groups, through '
+        're and end to end through `file .. = -contents-of F -transformed-by replace RX TEMPLATE`; non-trivial := template with a '
+        'backslash. (3) fuzz: valid cases from a grammar over all instructions of all phases and all types (string, list, path, '
+        'integer, integer/line/text/file/files-matcher, files-condition, files-source, text-source, text-transformer, program, '
+        'here-documents, symbols of every type, four actors), each run as is and mutated: token deletion / duplication / replacement '
+        '(by a token of any earlier case or an odd character) / transposition, truncation at any character, quote imbalance, '
+        'wrong-type arguments (symbol of another type, keyword of another type, type of a definition), ill-formed or extreme '
+        'integers / regexes / globs / replacement strings, line deletion / duplication / swap / join / garbage, phase headers '
+        '(unknown, malformed, moved), single-character damage (incl. NUL, NBSP, U+2028, BOM), combinations; corpus of known '
+        'failing inputs first; non-trivial := mutated case; distinct := distinct text')
+
+
 def run(ctx, res):
     runner = Runner(ctx.work)
     try:
         n = run_iexprs(ctx, res, runner)
         n += run_templates(ctx, res, runner)
         n += run_fuzz(ctx, res, runner)
+        if not ctx.quick:
+            n += reproduce_hang(ctx, res)
     finally:
         runner.close()
     res.evaluations = n
-    res.rule = 'TODO'
+    res.rule = RULE
+    res.extra['route_table_rows'] = getattr(ctx, 'c18_route_rows', None)
+
+
+def reproduce_hang(ctx, res):
+    """KF-C18-5, only in a child process with a time limit and an address-space limit"""
+    import resource
+    d = tempfile.mkdtemp(prefix='c18-hang-', dir=ctx.work)
+    case = os.path.join(d, 'hang.case')
+    text = '[assert]\nexit-code == "9**9**9**9"\n'
+    with open(case, 'w') as f:
+        f.write(text)
+    env = dict(os.environ, PYTHONPATH=common.REPO + '/src', PYTHONWARNINGS='ignore')
+
+    def limits():
+        resource.setrlimit(resource.RLIMIT_AS, (3 << 30, 3 << 30))
+
+    info = {'kind': 'child process', 'case': text, 'time_limit_s': 5}
+    try:
+        p = subprocess.run([sys.executable, common.REPO + '/src/default-main-program-runner.py', case], cwd=d, env=env,
+                           stdout=subprocess.PIPE, stderr=subprocess.PIPE, timeout=5, preexec_fn=limits, text=True)
+        info['observed'] = {'exit': p.returncode, 'stdout': p.stdout[:200]}
+        res.count('hang reproduction: terminated (exit %s)' % p.returncode)
+    except subprocess.TimeoutExpired:
+        info['observed'] = {'timeout': True}
+        res.prop_failures.append(Failure('property', info, 'Exactly did not terminate within the time limit', finding=KF_HANG))
+        res.count('hang reproduction: did not terminate in 5 s')
+    shutil.rmtree(d, ignore_errors=True)
+    return 1
+
+
+def search(ctx, res):
+    """failing-input search (a proof or the correspondence broke): the three streams again, from a derived seed, at three times
+    the quick size; returns the property failures found"""
+    ctx2 = common.Ctx(PROP, 'quick', ctx.seed * 7919 + 13)
+    ctx2.work = ctx.work
+    found = []
+    for rnd in range(3):
+        r2 = common.Result()
+        runner = Runner(ctx.work, 'search')
+        try:
+            run_iexprs(ctx2, r2, runner)
+            run_templates(ctx2, r2, runner)
+            run_fuzz(ctx2, r2, runner)
+        finally:
+            runner.close()
+        found += r2.prop_failures
+        if any(f.finding is None for f in found):
+            break
+    return found
 
 
 def replay(ctx, payload):
-    print(json.dumps(payload.get('case') or payload, indent=1, default=str))
+    case = payload.get('case') or (payload.get('correspondence_disagreements') or [{}])[0].get('case') or {}
+    text = case.get('case')
+    print(json.dumps({k: v for k, v in case.items() if k != 'observed'}, indent=1, default=str))
+    if text is None:
+        print(json.dumps(payload, indent=1, default=str)[:4000])
+        return 0
+    os.makedirs(ctx.work, exist_ok=True)
+    runner = Runner(ctx.work, 'replay')
+    try:
+        files = dict(HOME_FILES)
+        if case.get('kind') == 'replacement template':
+            files['in.txt'] = 'ab a\n'
+        term, info, finding, o = run_one_fuzz(runner, text, common.Result(), 'replay')
+    finally:
+        runner.close()
+    print('stored observation :', json.dumps(case.get('observed'), default=str)[:1500])
+    print('observed now       :', json.dumps(info['observed'], default=str)[:1500])
+    print('known finding      :', finding)
+    vals, out = common.coq_eval_terms(PROP, ['Model.Outcome', 'Model.Errors', 'Spec.C18'], ['check_fcase %s' % term], tag='replay')
+    print('check_fcase (correspondence, property) =', vals[0] if vals else out[-800:])
     return 0
 
 
@@ -1044,6 +1156,9 @@ HOME_FILES = {'in.txt': 'ab a\nsecond line\n\nlast', 'empty.txt': '', 'd/x.txt':
 EXECUTABLES = ['prog.sh']
 
 
+BUILTIN_PATH_SYMBOLS = ['EXACTLY_HOME', 'EXACTLY_ACT_HOME', 'EXACTLY_ACT', 'EXACTLY_TMP', 'EXACTLY_RESULT']
+
+
 def kw(s):
     return ('kw', s)
 
@@ -1053,10 +1168,14 @@ def op(s):
 
 
 class Gram:
-    def __init__(self, rng):
+    def __init__(self, rng, chain_focus=False):
         self.rng = rng
+        self.chain_focus = chain_focus
+        self.act_focus = False
         self.defined = set()  # symbol types defined in this case
         self.n_files = 0
+        self.composed_names = []  # symbols whose value references other symbols
+        self.chain_defs = 0
         self.dirs = []  # directories created in the sandbox (relative act dir)
         self.files = []  # files created in the sandbox
 
@@ -1078,8 +1197,17 @@ class Gram:
         return 'f%d%s' % (self.n_files, ext)
 
     # ---- data types
+    def composed(self):
+        """a reference to one of the composed symbols defined so far (symbols whose value references other symbols)"""
+        name = self.ch(self.composed_names)
+        return self.ch(['@[%s]@', '@[%s]@', '"@[%s]@"', 'x@[%s]@', '"@[%s]@ + 1"']) % name
+
     def string(self):
         r = self.rng.below(10)
+        if self.composed_names and self.p(0.25):
+            return [('str', self.composed())]
+        if self.p(0.06):
+            return [('str', self.ch(['@[%s]@', '"@[%s]@/x"', 'pre@[%s]@']) % self.ch(BUILTIN_PATH_SYMBOLS))]
         if r < 4:
             return [('str', self.ch(['abc', 'x', 'hello', 'a.b', 'A1', 'line']))]
         if r < 6:
@@ -1118,6 +1246,8 @@ class Gram:
 
     def integer(self):
         r = self.rng.below(12)
+        if self.composed_names and self.p(0.15):
+            return [('int', self.composed())]
         if r < 7:
             return [('int', str(self.rng.below(6)))]
         if r < 9:
@@ -1130,6 +1260,10 @@ class Gram:
         out = []
         if self.p(0.15):
             out.append(kw('-ignore-case'))
+        if self.p(0.08):
+            sym = self.ch(BUILTIN_PATH_SYMBOLS + ([SYMBOLS['path']] if self.has('path') else []) + self.composed_names)
+            out.append(('regex', self.ch(['@[%s]@', '"^@[%s]@/"', "x@[%s]@"]) % sym))
+            return out
         out.append(('regex', self.ch(['a', 'ab', "'a.*b'", '"^a"', "'(a)|(b)'", "'[a-c]+'", 'x$', "'l(i)ne'", "'\\\\.txt$'", "'a{1,2}'"])))
         return out
 
@@ -1140,7 +1274,9 @@ class Gram:
         return [('fname', self.new_name(ext))]
 
     def path_existing_file(self):
-        r = self.rng.below(10)
+        r = self.rng.below(12)
+        if r >= 10:
+            return [('fname', self.ch(['in.txt', 'empty.txt', 'd/x.txt', "'in.txt'", '"d/x.txt"']))]  # default relativity
         if r < 4:
             return [kw('-rel-home'), ('fname', self.ch(['in.txt', 'empty.txt', 'd/x.txt']))]
         if r < 6 and self.files:
@@ -1150,7 +1286,9 @@ class Gram:
         return [kw('-rel-home'), ('fname', 'in.txt')]
 
     def path_existing_dir(self):
-        r = self.rng.below(10)
+        r = self.rng.below(12)
+        if r >= 10:
+            return [('fname', self.ch(['d', 'd/sub', "'d'"]))]
         if r < 5:
             return [kw('-rel-home'), ('fname', self.ch(['d', 'd/sub']))]
         if r < 7 and self.dirs:
@@ -1356,16 +1494,20 @@ class Gram:
             out += [NL, kw('-transformed-by')] + self.text_transformer(d - 1, True)
         return out
 
-    def program_args(self):
+    def program_args(self, rich=False):
         out = []
-        for _ in range(self.rng.randint(0, 3)):
+        for _ in range(self.rng.randint(0, 4 if rich else 3)):
             r = self.rng.below(10)
+            if rich and r < 5:
+                r = 6 + self.rng.below(4)
             if r < 6:
                 out += self.string()
             elif r < 7:
                 out += [kw('-existing-file')] + self.path_existing_file()
             elif r < 8:
                 out += [kw('-existing-dir')] + self.path_existing_dir()
+            elif r < 9 and rich:
+                out += [kw('-existing-path')] + (self.path_existing_file() if self.p(0.5) else self.path_existing_dir())
             else:
                 out += [('str', self.ch(['-x', '--opt', 'arg']))]
         if self.p(0.1):
@@ -1393,8 +1535,78 @@ class Gram:
         self.defined.add(ty)
         return [kw('def'), kw(ty), ('symdef', name), op('=')] + value
 
+    def chain_def(self):
+        """def of a symbol of a data type whose value references 1..3 earlier symbols (any data type, any order)"""
+        self.chain_defs += 1
+        name = 'C%d' % self.chain_defs
+        pool = [SYMBOLS[t] for t in ('string', 'list', 'path') if t in self.defined] + self.composed_names
+        if self.p(0.3):
+            pool = pool + BUILTIN_PATH_SYMBOLS
+        lits = ['1', '2', 'a', '/', '-', ' ', '+']
+        parts = []
+        for _ in range(self.rng.randint(1, 3)):
+            parts.append('@[%s]@' % self.ch(pool) if pool and self.p(0.8) else self.ch(lits))
+            if self.p(0.3):
+                parts.append(self.ch(lits))
+        ty = self.ch(['string', 'string', 'string', 'list', 'path'])
+        if ty == 'string':
+            v = ''.join(parts)
+            value = [('str', v if ' ' not in v else '"%s"' % v)]
+        elif ty == 'list':
+            value = [('str', x) for x in parts if x.strip()] or [('str', 'e')]
+        else:
+            value = [kw(self.ch(['-rel-act', '-rel-home', '-rel-tmp'])), ('fname', ''.join(x for x in parts if x.strip()) or 'p')]
+        self.composed_names.append(name)
+        return [kw('def'), kw(ty), ('symdef', name), op('=')] + value
+
+    def chain_use(self):
+        """a use of a composed symbol where only plain strings are allowed (or where a path / list is natural)"""
+        u = self.rng.below(9)
+        c = ('str', self.composed())
+        if u == 0:
+            return [kw('file'), kw('-rel-act'), c, op('='), ('str', 'contents')]
+        if u == 1:
+            return [kw('env'), ('str', 'MY_VAR'), op('='), c]
+        if u == 2:
+            return [op('%'), c, ('str', 'arg')]
+        if u == 3:
+            return [kw('timeout'), op('='), ('int', c[1])]
+        if u == 4:
+            return [kw('dir'), kw('-rel-act'), ('fname', self.new_name('')), op('='), op('{'), NL, kw('file'), c, NL, op('}')]
+        if u == 5:
+            return [kw('run'), op('%'), ('str', 'echo'), c, kw('-existing-path'), c]
+        if u == 6:
+            return [kw('file'), kw('-rel-act'), ('fname', self.new_name()), op('='), c, kw('-transformed-by'), kw('filter'),
+                    kw('-line-nums'), ('int', c[1])]
+        if u == 7:
+            return [kw('file'), kw('-rel-act'), ('fname', self.new_name()), op('='), ('str', 'x'), kw('-transformed-by'),
+                    kw('replace'), ('regex', c[1]), ('repl', c[1])]
+        return [kw('copy'), kw('-rel-home'), ('fname', 'in.txt'), kw('-rel-act'), c]
+
+    def chain_case(self):
+        """symbols of the data types, symbols composed of references to them (chains), and uses of the composed ones"""
+        self.chain_focus = True
+        lines = [[('phase', '[setup]')]]
+        for ty in ('string', 'path', 'list'):
+            if self.p(0.75):
+                lines.append(self.def_(ty))
+        for _ in range(self.rng.randint(1, 3)):
+            lines.append(self.chain_def())
+        for _ in range(self.rng.randint(0, 2)):
+            lines.append(self.chain_use() if self.p(0.7) else self.multi_phase('setup'))
+        if self.p(0.5):
+            lines += [[('phase', '[act]')], [op('$'), ('raw', 'true')]]
+        lines.append([('phase', '[assert]')])
+        for _ in range(self.rng.randint(1, 3)):
+            lines.append(self.assert_instr())
+        if self.p(0.3):
+            lines += [[('phase', '[cleanup]')], self.chain_use()]
+        return lines
+
     def multi_phase(self, phase):
         r = self.rng.below(20)
+        if self.chain_focus and self.composed_names and self.p(0.3):
+            return self.chain_use()
         if r < 2:
             return [op('$'), ('raw', self.ch(['true', 'echo hello', 'echo x > sh-out.txt', 'cat', 'exit 0', 'exit 0', 'exit 2']))]
         if r < 3:
@@ -1440,6 +1652,13 @@ class Gram:
 
     def assert_instr(self):
         r = self.rng.below(20)
+        if self.chain_focus and self.composed_names and self.p(0.6):
+            c = self.composed()
+            return self.ch([[kw('exit-code'), op('=='), ('int', c)],
+                            [kw('contents'), kw('-rel-act'), ('fname', c), op(':'), kw('is-empty')],
+                            [kw('stdout'), kw('num-lines'), op('<='), ('int', c)],
+                            [kw('exists'), ('fname', c)],
+                            [kw('stdout'), kw('equals'), ('str', c)]])
         if r < 4:
             return [kw('exit-code')] + self.int_matcher(2, False)
         if r < 5:
@@ -1469,6 +1688,17 @@ class Gram:
         return [kw('status'), op('='), kw('PASS')]
 
     def act(self):
+        if self.act_focus:
+            r = self.rng.below(10)
+            if r < 4:
+                return [], [op('%'), ('str', self.ch(['echo', 'true', 'cat']))] + self.program_args(rich=True)
+            if r < 7:
+                return [], [('fname', self.ch(['prog.sh', "'prog.sh'", '"prog.sh"']))] + self.program_args(rich=True)
+            if r < 8 and self.has('program'):
+                return [], [op('@'), self.sym('program')] + self.program_args(rich=True)
+            if r < 9:
+                return [], [kw(self.ch(['-rel-home', '-rel-act-home'])), ('fname', 'prog.sh')] + self.program_args(rich=True)
+            return [], [kw('-python'), ('str', '-c'), ('str', "'pass'")] + self.program_args(rich=True)
         r = self.rng.below(10)
         if r < 3:
             return ([kw('actor'), op('='), kw('command')] if self.p(0.2) else []), \
@@ -1484,6 +1714,24 @@ class Gram:
         if r < 9:
             return [kw('actor'), op('='), kw('file'), op('%'), ('str', 'sh')], [('fname', 'prog.sh')]
         return [], []
+
+    def act_case(self):
+        """a case that is little more than an [act] phase with a rich command line"""
+        self.act_focus = True
+        lines = []
+        if self.p(0.4):
+            lines.append([('phase', '[setup]')])
+            for ty in ('string', 'path', 'list', 'program'):
+                if self.p(0.4):
+                    lines.append(self.def_(ty))
+            if len(lines) == 1:
+                lines.append([kw('file'), kw('-rel-act'), ('fname', 'made.txt')])
+        _, act_line = self.act()
+        lines.append([('phase', '[act]')])
+        lines.append(act_line)
+        if self.p(0.3):
+            lines += [[('phase', '[assert]')], [kw('exit-code'), op('=='), ('int', '0')]]
+        return lines
 
     def case(self):
         """-> list of lines; a line = list of tokens (phase headers are single tokens of role 'phase')"""
@@ -1779,6 +2027,10 @@ def kf_bigint_pred(text):
     return False
 
 
+def kf_nul_pred(text):
+    return '\x00' in text
+
+
 def _parse_doc(text, path):
     """the real document parser on the text: (doc, None) or (None, exception)"""
     from exactly_lib.processing.parse import test_case_parser
@@ -1898,6 +2150,15 @@ CORPUS_CASES = [
     ('N1b quit(3)', '[assert]\nexit-code == "quit(3)"\n', KF_EXIT),
     ('N2 integer with more than 4300 digits in a failure message (KF-C18-4)', '[assert]\nexit-code == 10**5000\n', KF_BIGINT),
     ('N2b the same in num-lines', "[setup]\nfile f.txt = 'a'\n[assert]\ncontents f.txt : num-lines == 10**5000\n", KF_BIGINT),
+    ('N4 timeout too large for a float (FIX-C18-4)', '[setup]\ntimeout = 10**400\n[act]\n$ true\n', None),
+    ('N4b huge negative timeout: the validator renders it (KF-C18-4)', '[setup]\ntimeout = -(10**5000)\n', KF_BIGINT),
+    ('N5 empty string as program of the act phase (FIX-C18-3)', '[act]\n""\n', None),
+    ('N5b the same with an argument', '[act]\n"" x\n', None),
+    ('N6 NUL character in a path (KF-C18-8)', '[setup]\ncopy -rel-home \x00\n', KF_NUL),
+    ('N7 regex with a reference to a path of the home directory structure (FIX-C18-5)',
+     '[assert]\nstdout matches @[EXACTLY_HOME]@\n', None),
+    ('N7b the same through a path symbol and a string symbol, in a transformer',
+     '[setup]\ndef path P = -rel-home d\ndef string C = @[P]@1\nfile f.txt = x -transformed-by replace @[C]@ y\n', None),
     ('unknown instruction', '[setup]\nno-such-instruction x\n', None),
     ('unknown phase', '[nope]\nx\n', None),
     ('unterminated quote', "[setup]\nfile f.txt = 'abc\n", None),
@@ -1915,17 +2176,27 @@ def run_one_fuzz(runner, text, res, label):
     """-> (coq term or None, info, finding id or None)"""
     doc, pex = _parse_doc(text, os.path.join(runner.root, 'parse.case'))
     pr, to, _ = runner.run_text(text, files=HOME_FILES)
+    if to:
+        # a cut-off run is an alarm only if it is confirmed with a generous limit (a loaded machine must not cry)
+        res.count('fuzz: runs cut off at 10 s and repeated with 90 s')
+        pr, to, _ = runner.run_text(text, files=HOME_FILES, limit=90)
     code, ident, exc = classify_run(pr)
     info = {'kind': 'fuzz', 'mutation': label, 'case': text,
             'observed': {'exit': code, 'identifier': ident, 'exception': None if pr.exception is None else repr(pr.exception)[:300],
                          'timeout': to, 'stderr_tail': pr.err[-700:]},
             'document_parser': 'returned a document' if pex is None else type(pex).__name__}
     finding = None
+    internal = ident == 'INTERNAL_ERROR'
+    last = pr.err.strip().splitlines()[-1] if pr.err.strip() else ''
     if exc is SystemExit and kf_exit_pred(text):
         finding = KF_EXIT
-    elif exc is ValueError and 'integer string conversion' in str(pr.exception) and kf_bigint_pred(text):
+    elif (exc is ValueError and 'integer string conversion' in str(pr.exception)
+          or internal and last.startswith('ValueError: Exceeds the limit')) and kf_bigint_pred(text):
         finding = KF_BIGINT
-    elif ident == 'INTERNAL_ERROR' and 'KeyError' in pr.err and 'In [cleanup]' in pr.err and kf_cleanup_pred(text, runner, HOME_FILES):
+    elif (internal and last.startswith('ValueError: embedded null byte')
+          or exc is ValueError and 'embedded null byte' in str(pr.exception)) and kf_nul_pred(text):
+        finding = KF_NUL
+    elif internal and last.startswith('KeyError') and 'In [cleanup]' in pr.err and kf_cleanup_pred(text, runner, HOME_FILES):
         finding = KF_CLEANUP
     term = '(FCase %s %s)' % ('None' if pex is None else '(Some %s)' % coq_class_nearest(type(pex)), c_fobs(pr, to, text))
     return term, info, finding, (code, ident, exc, to)
@@ -1933,8 +2204,10 @@ def run_one_fuzz(runner, text, res, label):
 
 def run_fuzz(ctx, res, runner):
     rng = ctx.rng
-    n_base = 330 if ctx.quick else 9000
+    n_base = 330 if ctx.quick else 3000
     per_base = 5 if ctx.quick else 10
+    if os.environ.get('C18_NBASE'):  # experiments only
+        n_base = int(os.environ['C18_NBASE'])
     mut = Mutator(rng)
     terms, meta, findings = [], [], []
 
@@ -1953,15 +2226,27 @@ def run_fuzz(ctx, res, runner):
             res.count('corpus finding not reproduced: ' + expect)
         res.count('fuzz: corpus')
     for b in range(n_base):
+        focus = rng.weighted([('general', 5), ('act-line', 3), ('symbol-chain', 3)])
         g = Gram(rng)
-        phys = flatten(g.case())
+        phys = flatten(g.act_case() if focus == 'act-line' else g.chain_case() if focus == 'symbol-chain' else g.case())
         mut.learn(phys)
         base = render(phys)
-        one(base, 'none (valid case from the grammar)')
-        res.count('fuzz: valid base cases')
+        one(base, 'none (valid case from the grammar; %s)' % focus)
+        res.count('fuzz: base cases, ' + focus)
         seen = {base}
+        act_at = [i for i, l in enumerate(phys) if l and l[0] == ('phase', '[act]')]
         for _ in range(per_base):
-            kind, text = mut.mutate(phys)
+            if focus == 'act-line' and act_at and act_at[0] + 1 < len(phys) and rng.chance(0.8):
+                # damage aimed at the act phase's command line: it is parsed by the actor when the case runs,
+                # outside the instruction parsers' catch-all
+                k = act_at[0] + 1
+                kind, line = mut.mutate([phys[k]], rng.weighted([('quote', 6), ('tok_delete', 3), ('tok_replace', 3), ('tok_swap', 2),
+                                                                ('tok_dup', 2), ('truncate', 2), ('char', 4), ('wrong_type', 1),
+                                                                ('bad_int', 1)]))
+                text = render(phys[:k]) + line + ('' if line.endswith('\n') else '\n') + render(phys[k + 1:])
+                kind = 'act-line:' + kind
+            else:
+                kind, text = mut.mutate(phys)
             if text in seen:
                 continue
             seen.add(text)
